@@ -306,7 +306,7 @@ def run(P, C):
     # argument validation: throwing guards for length, range, duplicate, missing — before any member is written
     from . import vg
     gs = vg.guards_of(f)
-    C.rule("VG-3", "the argument is rejected unless it is a permutation of 0..ndim-1 (length, range, duplicate, missing) before any member is written; the entry is checked at full width", floor=5)
+    C.rule("VG-3", "the argument is rejected unless it is a permutation of 0..ndim-1 (length, range, duplicate, missing) before any member is written; the entry is checked at full width; the flag the duplicate test reads is set for every accepted entry", floor=6)
     pos = f.node_positions()
     stores = [i for i in f.walk() if ts.member_writes(f, i) and i in pos]
     kinds = {}
@@ -363,6 +363,24 @@ def run(P, C):
             ok = not before
             det += ": `%s`; member writes that can precede it: %d" % (g["text"].replace("this->", ""), len(before))
         C.ob("VG-3", "permuteDimensions", k, ok, f.loc(g["node"]) if g else f.where(), det)
+    # the duplicate test reads a flag that the same loop sets for the entry it has just accepted: without the store no duplicate is ever seen
+    # (and, with the loop form of the missing test, every argument is refused)
+    g = kinds.get("duplicate")
+    marked, det = False, "no duplicate guard"
+    if g is not None:
+        ctxt, corder = f.alpha(f.nodes[g["node"]]["cond"])
+        loop = next((a_ for a_ in f.ancestors(g["node"]) if f.k(a_) in ("ForStmt", "CXXForRangeStmt", "WhileStmt")), None)
+        want = ctxt.replace(".operator bool()", "")
+        marks = []
+        for x in (f.walk(loop) if loop is not None else []):
+            if (f.k(x) == "CXXOperatorCallExpr" and f.nodes[x].get("opcall") == "=") or (f.k(x) == "BinaryOperator" and f.nodes[x].get("op") == "="):
+                t_, o_ = f.alpha(x)
+                if t_ in ("(%s = 1)" % want, "(%s = true)" % want) and o_ == corder and f.seq(x) > f.seq(g["node"]) and \
+                        not any(f.k(a_) == "IfStmt" for a_ in f.ancestors(x) if loop in list(f.ancestors(a_))):
+                    marks.append(x)
+        marked = len(marks) == 1
+        det = "`%s` is set for the entry after the duplicate test, unconditionally, in the same loop: %d store(s)" % (want.replace("v0", "seen").replace("v1", "entry"), len(marks))
+    C.ob("VG-3", "permuteDimensions", "seen-flag-set", marked, f.loc(g["node"]) if g else f.where(), det)
 
 
 def zd1(P, C):
